@@ -1,32 +1,16 @@
-import ModelF.Update
 import Driver.Proto
-open ModelF Proto
+import Driver.Ops.Update
+/-! Line-protocol driver over the executable models (ModelF = Float instantiation, ModelD).
+One request per line, one response per line. Each area registers a handler below. -/
 
-def chunkMats (n : Nat) (l : List Float) : List Mat3 := chunk9 n l
+def handlers : List (List String → Option String) := [
+  Ops.Update.handle
+]
 
-def texOut (t : Tex) : String :=
-  fmtFs (t.A.flatMap mat3ToList ++ t.f)
-
-/-- one request line -> one response line -/
 def handle (toks : List String) : String :=
-  match toks with
-  | "gbs" :: chi :: n :: rest =>
-    let n := n.toNat!
-    let (prev, rest) := takeF (9 * n) rest
-    let (a, rest) := takeF (9 * n) rest
-    let (f, _) := takeF n rest
-    texOut (applyGbs (parseF chi) n (chunkMats n prev) ⟨chunkMats n a, f⟩)
-  | "extract" :: n :: rest =>
-    let n := n.toNat!
-    let y := rest.map parseF
-    let (F, t) := extractVars n y
-    fmtFs (mat3ToList F) ++ " " ++ texOut t
-  | "poststep" :: chi :: n :: rest =>
-    let n := n.toNat!
-    let (prev, rest) := takeF (9 * n) rest
-    let y := rest.map parseF
-    fmtFs (postStep (parseF chi) n (chunkMats n prev) y)
-  | _ => "bad-op"
+  match handlers.findSome? (fun h => h toks) with
+  | some s => s
+  | none => "bad-op"
 
 partial def loop (h : IO.FS.Stream) (out : IO.FS.Stream) : IO Unit := do
   let line ← h.getLine
@@ -36,5 +20,4 @@ partial def loop (h : IO.FS.Stream) (out : IO.FS.Stream) : IO Unit := do
   loop h out
 
 def main : IO Unit := do
-  let out ← IO.getStdout
-  loop (← IO.getStdin) out
+  loop (← IO.getStdin) (← IO.getStdout)
